@@ -132,5 +132,10 @@ class BoolGen(object):
         for n, v in sorted(self.strs.items()):
             s += '\\def\\%s{%s}' % (n, v)
         for n, v in sorted(self.bools.items()):
-            s += '\\newboolean{%s}\\setboolean{%s}{%s}' % (n, n, 'true' if v else 'false')
+            decl = self.r.choice(['newboolean', 'newboolean', 'provideboolean'])
+            s += '\\%s{%s}\\setboolean{%s}{%s}' % (decl, n, n, 'true' if v else 'false')
+            if self.r.random() < 0.3:
+                # the declare-if-missing idiom on a boolean that exists already: its value stays
+                s += '\\provideboolean{%s}' % n
+                self.features.add('provideboolean-on-existing')
         return s
